@@ -2098,9 +2098,11 @@ where
                     M::combine_mut(&mut output, out, |c, out| C::write(c, idx, out));
                 }
                 Ok(None) => {
-                    // let span = inp.span_since(&before);
-                    // We don't add an alt here because we assume the inner parser will. Is this safe to assume?
-                    // inp.add_alt([ExpectedMoreElements(Some(C::LEN - idx))], None, span);
+                    // The iterator finished early without failing (for example, because it hit its own upper
+                    // bound), so nothing has recorded an error for this failure yet: report it where it happened.
+                    let found = inp.peek_maybe();
+                    let span = inp.span_since(&inp.cursor());
+                    inp.add_alt([DefaultExpected::SomethingElse], found, span);
                     // SAFETY: We're guaranteed to have initialized up to `idx` values
                     M::map(output, |mut output| unsafe {
                         C::drop_before(&mut output, idx)
